@@ -32,6 +32,10 @@ var plan = []target{
 	{"storage/pebble/storage.go", []string{"c.size", "c.radius", "c.db", "batch.Commit", "cs.db", "cs.size", "cs.radius"}},
 	{"portalwire/portal_protocol.go", []string{"p.transferringKeyCache", "p.Utp", "p.contentQueue", "p.offerQueue", "p.cacheTransferringKeys", "p.deleteTransferringContentKeys", "p.storage", "permit.Release", "p.filterContentKeys", "p.handleOfferedContents"}},
 	{"portalwire/portal_protocol_v1.go", []string{"p.transferringKeyCache", "p.contentQueue", "p.storage"}},
+	// lock hooks only (no yield targets): the table's mutexes are modelled by the scheduler
+	{"portalwire/table.go", nil},
+	{"portalwire/table_reval.go", nil},
+	{"portalwire/common.go", nil},
 }
 
 const hookSrc = `// Package verifhook is a virtual package supplied by the verification overlay.
